@@ -15,7 +15,7 @@ PROPS = {
         "clauses_proved": [
             "overflowing_sub: w in {-1,0,1} and y-x = d - w*2^bits for every width and pair (overflowing_sub_exact)",
             "Unwrapper: returned value is the wrapped increment; accumulator = old + increment; reduces to the new sample (unwrapper_step, unwrapper_tracks_last)",
-            "Unwrapper: wide output = running sum of increments for every sequence (unwrapper_sum, unwrapper_sum_exact)",
+            "Unwrapper: wide output = old + running sum of increments modulo 2^bits(Q) for every sequence (unwrapper_sum), exactly while every prefix sum fits Q (unwrapper_sum_exact); widths 0 < bits(P) <= bits(Q), signed types",
             "Accu: n-th item = start + n*step mod 2^bits, iterator total (accu_nth)",
         ],
         "clauses_explored": [],
@@ -32,8 +32,8 @@ PROPS["C18"] = {
         "exact inside the range for every documented shift 1..=32: floor((hi*2^32+lo)/2^shift) (sat_scale_exact)",
         "outside: constant +-(2^31 - 2^(shift-1)), independent of lo (sat_scale_clip)",
         "never panics for shift 1..=32, result in i32 (sat_scale_total) [after the fix: commit]",
-        "monotone in (hi, lo) for shift <= 16 (sat_scale_monotone_le16)",
-        "NEGATION: not monotone for every shift 17..=32 (sat_scale_not_monotone_ge17): known finding F-C18-a",
+        "monotone in (hi, lo) for 1 <= shift <= 16 (sat_scale_monotone_le16, stated on the closed form satScaleVal that sat_scale_eq_val proves equal to the model)",
+        "NEGATION: not monotone for every shift 17..=32 (sat_scale_not_monotone_ge17, on the same closed form): known finding F-C18-a",
         "NEGATION: shift 32, hi = MIN saturates to 0 (sat_scale_shift32_min_is_zero): known finding F-C18-c",
     ],
     "clauses_explored": [],
@@ -49,16 +49,16 @@ PROPS["C10"] = {
         "first order: for every k in [1, 2^31-1], EVERY i64 state, every x: no overflow in either profile, output and get() between previous output and input (lp1_between)",
         "first order: constant input reached exactly from every state (lp1_dc_reaches) and held (lp1_dc_fixed)",
         "set(x); get() = x (lp_set_get)",
-        "second order: one-step linear form under explicit no-overflow preconditions (lp2_step_linear); the only resting state under a constant input has velocity 0 and get() = x exactly, i.e. DC gain exactly 1 at rest (lp2_fixed_point_iff)",
+        "second order: one-step linear form under explicit no-overflow preconditions (lp2_step_linear); for k0 != 0 and under the same no-overflow side conditions the only resting state under a constant input has velocity 0 and get() = x exactly, i.e. DC gain exactly 1 at rest (lp2_fixed_point_iff)",
         "NEGATION: second order wraps/panics near full scale (lp2_fullscale_overflow_witness): known finding F-C10",
-        "SECOND ORDER (Props/C10lp2.lean), every documented Butterworth k (integer k, k0 = floor(k^2/2^32), k1 = -floor(sqrt(2 k^2)), 2^16 <= k <= 2^31/sqrt2), both profiles: exact error recursion with the two floor remainders (lp2_error_recursion); admissibility and complex characteristic roots of every such pair (lp2_butterworth_admissible); input-to-state stability through an exactly multiplicative quadratic Lyapunov form (lp2_settles_of_safe, lp2_settles_of_safe2); MAIN RESULT lp2_level_change_pm2p30: a filter in a start state at ANY level |xo| <= 2^30 (set(xo), lp2_start2_reset, or the state reached by an earlier settled step) switched to ANY constant |x| <= 2^30 - i.e. every step up to 2^31, including those whose first updates saturate the input difference - never panics or wraps, and after finitely many updates it is again a start state and get() and every output stay within 4*2^32/k + 4 LSB of x for ever, so steps can be chained indefinitely (small steps: symmetric sector-safe region; steps above 3*2^28: approach-phase argument with a first-quadrant invariant, a two-piece velocity bound, decay of the quadratic form over floor(2^32/b) updates and hand-off to a sector-safe region, Lemmas/Lp2Big*.lean); earlier partial forms kept (lp2_level_change_pm2p29, lp2_level_change_pm2p30_step); no panic and bounded outputs for ARBITRARY input sequences within +-2^29 (lp2_any_input_pm2p29); the same over all states reachable by set() and histories within +-2^28 (lp2_reachable_settles_pm2p28)",
+        "SECOND ORDER (Props/C10lp2.lean), every documented Butterworth k (integer k, k0 = floor(k^2/2^32), k1 = -floor(sqrt(2 k^2)), 2^16 <= k <= 2^31/sqrt2), both profiles: exact error recursion with the two floor remainders (lp2_error_recursion); admissibility and complex characteristic roots of every such pair (lp2_butterworth_admissible); input-to-state stability through an exactly multiplicative quadratic Lyapunov form (lp2_settles_of_safe, lp2_settles_of_safe2); MAIN RESULT lp2_level_change_pm2p30: a filter in a START STATE (predicate Lp2Start2) at ANY level |xo| <= 2^30 - i.e. set(xo) on a filter whose velocity word is zero, e.g. a fresh one (lp2_start2_reset: the pair (set xo, 0); Rust's set() writes state[0] only, so set() on a RUNNING second-order filter is not covered), or the state reached at the end of an earlier settled step - switched to ANY constant |x| <= 2^30 - i.e. every step up to 2^31, including those whose first updates saturate the input difference - never panics or wraps, and after finitely many updates it is again a start state and get() and every output stay within 4*2^32/k + 4 LSB of x for ever, so steps can be chained indefinitely (small steps: symmetric sector-safe region; steps above 3*2^28: approach-phase argument with a first-quadrant invariant, a two-piece velocity bound, decay of the quadratic form over floor(2^32/b) updates and hand-off to a sector-safe region, Lemmas/Lp2Big*.lean); earlier partial forms kept (lp2_level_change_pm2p29, lp2_level_change_pm2p30_step); no panic and bounded outputs for ARBITRARY input sequences within +-2^29 from a state settled (Lp2Settled) at some |xo| <= 2^29, e.g. after a fresh set(xo) (lp2_any_input_pm2p29); settling over all states reachable from a fresh set() by histories within +-2^28 (lp2_reachable_settles_pm2p28)",
         "EXPLICIT SETTLING TIME (Props/C10lp2t.lean): in the setting of lp2_level_change_pm2p30 (every documented Butterworth k, levels within +-2^30, every step up to 2^31, both profiles, clipping included) no update ever panics and for EVERY n >= 2400*(2^32/k + 1) the state is a start state at x and get() and the output are within 4*2^32/k + 4 LSB of x (lp2_level_change_pm2p30_time; small steps with 2332: lp2_level_change_pm2p30_time_partial). The constant is not tight (observed: about 40*2^32/k); it comes from 275 halvings of the excess of the quadratic form to reach the exact equilibrium level, 28 halvings of the centred error, and the hand-off window of the approach phase",
     ],
     "clauses_explored": [
         "second order: the 5% overshoot bound (native sweep over k x level pairs, observed maximum 4.36%; a quadratic-form argument can only give about 37-50%, the analysis is a comment in Props/C10lp2t.lean, target statement lp2_overshoot_le_50_target unproved) and a TIGHT settling time (proved: 2400*(2^32/k+1); observed and used by the oracle: about 40*2^32/k); levels between 2^30 and 0.95 of full scale (native only)",
         "second order never wraps for steps whose target level is below 0.95 of full scale (native, against an unbounded-integer reference of the same recurrence)",
     ],
-    "level_text": "The first-order clauses are theorems for all gains, all i64 states and all inputs. For the second order, no-overflow and settling within 4*2^32/k+4 LSB are theorems for every documented Butterworth gain and every step between levels within +-2^30 (half of full scale; Lyapunov / input-to-state-stability argument over the integers plus an approach-phase argument for steps that saturate); with an explicit settling time of 2400*(2^32/k+1) updates; levels beyond 2^30 and the 5% overshoot are explored only; the failing full-scale clause is a proved negation and a known finding.",
+    "level_text": "The first-order clauses are theorems for all gains, all i64 states and all inputs. For the second order, no-overflow and settling within 4*2^32/k+4 LSB are theorems for every documented Butterworth gain and every step between levels within +-2^30 taken from a start state (a fresh set(), or the end of an earlier settled step; states reached by arbitrary histories only within +-2^28) (half of full scale; Lyapunov / input-to-state-stability argument over the integers plus an approach-phase argument for steps that saturate); with an explicit settling time of 2400*(2^32/k+1) updates; levels beyond 2^30 and the 5% overshoot are explored only; the failing full-scale clause is a proved negation and a known finding.",
     "level_note": "Model: lp1Update, lp2Update, lpGet, lpSet (IdspModel/Model/Lowpass.lean). Lowpass<N> for N other than 1, 2 is unimplemented!() in the code and not modelled.",
     "rule": "lp1: arbitrary/set()/reachable states x lattice gains x full-scale alternations; lp2: k lattice x level pairs; each configuration distinct",
 }
@@ -86,14 +86,14 @@ PROPS["C16"] = {
     "n_quick": 100000, "n_thorough": 1000000,
     "clauses_proved": [
         "range invariant for every K <= 7, every invariant state, every input list; never panics; both profiles agree (dsm_range, dsm_range_step, dsm_range_from)",
-        "output is the exact (unbounded) MASH-1^K value; run equals the unbounded specification (dsm_mash, dsm_mash_run)",
-        "error identity 2^32*sum(y) - sum(x) = function of the final state, within +-2^(K-1)*2^32, for every prefix (dsm_error_identity, dsm_error_step, dsm_err_bound, dsm_run_prefix)",
-        "constant input mean bound (dsm_const_input_mean)",
+        "output is the exact (unbounded) MASH-1^K value; run equals the unbounded specification, for K <= 7 from every invariant state (dsm_mash, dsm_mash_run)",
+        "error identity 2^32*sum(y) - sum(x) = function of the final state, for 1 <= K <= 7 and u32 inputs: within +-2^(K-1)*2^32 from Dsm::default() for every prefix (dsm_error_identity, dsm_error_step, dsm_err_bound, dsm_run_prefix), within twice that from an arbitrary invariant state (dsm_error_identity_from)",
+        "constant input mean bound, from Dsm::default() (dsm_const_input_mean)",
         "K = 8 characterised exactly: deviates only when the exact output is +128 (dsm_step_upto8, dsm_run_upto8); NEGATION witness dsm_k8_overflow_witness: known finding F-C16-b",
-        "K = 0 returns 0 (after the fix: commit)",
+        "K = 0 returns 0 (dsm_k0_zero; after the fix: commit)",
     ],
     "clauses_explored": [],
-    "level_text": "Every clause is a K-generic kernel-checked theorem over all invariant states and all input lists (no enumeration); for K = 8 the exact deviation condition is proved and the property's failure is a proved negation with a 9-step witness (known finding).",
+    "level_text": "Every clause is a K-generic kernel-checked theorem over all input lists (no enumeration): the range and exact-value clauses from every invariant state, the accumulated-error and mean clauses from the default state (from an arbitrary invariant state with twice the bound); for K = 8 the exact deviation condition is proved and the property's failure is a proved negation with a 9-step witness (known finding).",
     "level_note": "Model: Dsm.update (IdspModel/Model/Dsm.lean).",
     "rule": "sequences from default: constant, 1-4 bit lattices, carry alignments, random; all 4^6 (4^8 thorough) sequences on the 2-bit lattice for every K; compared with an unbounded reference MASH",
 }
@@ -102,13 +102,13 @@ PROPS["C12"] = {
     "families": ["cic_dec"],
     "n_quick": 100000, "n_thorough": 1000000,
     "clauses_proved": [
-        "emits exactly at calls t with t % R = 0; tick() predicts it (decimate_emit_times, decimate_tick, decimate_tick_iff_some)",
+        "from Cic::new(rate), inputs in range: emits exactly at calls t with t % R = 0; tick() predicts it (decimate_emit_times, decimate_tick, decimate_tick_iff_some)",
         "m-th output = wrapI w (boxcar_R^{*N} * x)(mR) for every N, R, w, input list (decimate_eq_fir, decimate_outputs); exact when it fits (decimate_exact_when_fits)",
-        "gain() = (rate+1)^N; gain_log2 upper bound, exact for power-of-two R (gain_eq, gain_ok, gainLog2_bound, gainLog2_exact)",
+        "gain() = (rate+1)^N when rate, rate+1 and (rate+1)^N are representable in the sample type (gain_eq: whenever the checked call returns; gain_ok: it does return then); gain_log2 upper bound, exact for power-of-two R (gainLog2_bound, gainLog2_exact)",
         "rate 0 is the identity for every N (decimate_rate0_identity); get_decimate = last output (getDecimate_eq)",
     ],
     "clauses_explored": [],
-    "level_text": "Every clause is a theorem generic in the order N, the rate, the width and the input list (integrator wrap-around proved harmless via wrapI being a ring homomorphism).",
+    "level_text": "Every clause is a theorem generic in the order N, the rate, the width and the input list, for runs from Cic::new(rate) (integrator wrap-around proved harmless via wrapI being a ring homomorphism; arbitrary in-range states: Props/C20c.lean).",
     "level_note": "Model: Cic.decimate/gain/gainLog2 (IdspModel/Model/Cic.lean), N = list length. set_rate mid-stream is outside the property. gain() casts `rate as T` (wraps for narrow T): stated in gain_eq_general.",
     "rule": "orders 0..=6, rates 0..=64 and powers of two, i8..i128, small and integrator-wrapping inputs; FIR reference computed modulo 2^128",
 }
@@ -120,7 +120,7 @@ PROPS["C13"] = {
         "every output = exact FIR (boxcar^N) of the held input whenever the checked run returns (interpolate_eq_fir, interpolate_eq_fir_sum); converse sufficient condition (interpolate_ok_of_fits)",
         "get_interpolate = last returned output (getInterpolate_eq_last)",
         "constant input: x*step response, settled = x*(rate+1)^N from response_length on, monotone between levels (interpolate_constant, interpolate_constant_settled, interpolate_level_change, stepResp_shape)",
-        "settle_interpolate(x) is a fixed point with outputs x*gain and equals the state reached from new() after N+1 periods (settle_fixed_point, settle_fixed_point_gain, settle_eq_run_from_zero, run_from_zero_settles)",
+        "settle_interpolate(x) is a fixed point with outputs x*gain and equals the state reached from new() after N+1 periods, whenever the checked calls return and the rate is representable (settle_fixed_point, settle_fixed_point_gain, settle_eq_run_from_zero, run_from_zero_settles; exact return condition: c20c_cic_settle_iff)",
         "contract violations panic in a checked build (interpolate_some_off_tick_checked_panics, interpolate_none_on_tick_checked_panics)",
     ],
     "clauses_explored": [],
@@ -135,10 +135,10 @@ PROPS["C05"] = {
     "families": ["num"],
     "n_quick": 200000, "n_thorough": 2000000,
     "clauses_proved": [
-        "macc = (clamp(floor(T/ONE)), T mod ONE), remainder in [0, ONE), floor*ONE + rem = T, parametric in (w, q) and for the four instances (macc_exact, macc_exact_instances); release wrap form (macc_release_wrap); checked overflow panics exactly when T does not fit (macc_checked_overflow); arbitrary e1 is a genuine bitwise or (macc_any_e1)",
-        "mul_scaled = floor((a*b + ONE/2)/ONE) (mul_scaled_exact), x*ONE = x (mul_scaled_one), div_scaled = truncated quotient, b = 0 panics (div_scaled_exact)",
+        "macc = (clamp(floor(T/ONE)), T mod ONE), remainder in [0, ONE), floor*ONE + rem = T, parametric in (w, q) and for the four instances (macc_exact, macc_exact_instances); release wrap form (macc_release_wrap); checked overflow panics whenever T does not fit (macc_checked_overflow; the converse, no panic when it fits, is part of macc_exact, which needs in-range u, aligned in-range limits and 0 <= e1 < ONE); arbitrary e1 is a genuine bitwise or (macc_any_e1)",
+        "mul_scaled = floor((a*b + ONE/2)/ONE) reduced to w bits, i.e. equal to it when representable (mul_scaled_exact; e.g. (-128)*(-128) in Q2.6 wraps to 0), x*ONE = x (mul_scaled_one), div_scaled = truncated quotient reduced to w bits, b = 0 panics (div_scaled_exact)",
         "-2 exactly representable (neg_two_representable); clip (clip_spec)",
-        "QUANTIZE (Props/C05q.lean), real-valued specification quantizeR w q v = satI w (roundHalfAway (v*2^q)) of `(value * 2^Q).round() as T`, all w, q, all real v: nearest coefficient, |q - v 2^q| <= 1/2 and no integer is closer (quant_nearest, quant_nearest_unique), ties go away from zero (quant_ties_away); saturation to MIN/MAX and nearest element OF THE TYPE'S RANGE for every real v (quant_saturates, quant_saturates_nearest, quant_fits_of_range); monotone (quant_monotone); exact on every representable coefficient k/2^q, ONE, NEG_ONE and -2 -> MIN for the four types, +2 saturates to MAX (quant_exact_on_coefficients, quant_constants, quant_constants_instances); odd symmetry, no bias (quant_odd, quant_odd_quantize); coefficient error at most 2^-(q+1) (quant_scale_error); under the explicit float hypotheses QuantFl (FlModelX + IEEE round-to-integral exact on representable values; power-of-two scaling without overflow/underflow exact) the float pipeline equals quantizeR (quant_float_eq, quant_float_nearest)",
+        "QUANTIZE (Props/C05q.lean), real-valued specification quantizeR w q v = satI w (roundHalfAway (v*2^q)) of `(value * 2^Q).round() as T`, all w, q: WHEN THE ROUNDED VALUE FITS w bits - nearest coefficient, |q - v 2^q| <= 1/2 and no integer is closer (quant_nearest, quant_nearest_unique), ties go away from zero (quant_ties_away); FOR EVERY REAL v - saturation to MIN/MAX and nearest element OF THE TYPE'S RANGE (quant_saturates, quant_saturates_nearest, quant_fits_of_range), monotone (quant_monotone); exact on every representable coefficient k/2^q, ONE, NEG_ONE and -2 -> MIN for the four types, +2 saturates to MAX (quant_exact_on_coefficients, quant_constants, quant_constants_instances); odd symmetry of the rounding, and of quantize when neither side saturates (quant_odd, quant_odd_quantize); coefficient error at most 2^-(q+1) when it fits (quant_scale_error); under the explicit float hypotheses QuantFl (FlModelX + IEEE round-to-integral exact on representable values; power-of-two scaling without overflow/underflow exact) the float pipeline equals quantizeR (quant_float_eq, quant_float_nearest)",
     ],
     "clauses_explored": [
         "quantize on the real IEEE arithmetic (overflow to +-inf saturates, underflow, NaN -> 0 have no counterpart in the real-valued theorem): Lean Float transcription quantizeInt tied bit-exactly by the f_quantize correspondence; nearest-coefficient oracle natively for i16/i32/i64",
@@ -156,9 +156,9 @@ PROPS["C03"] = {
         "N = 4, 5: y0 = clamp(floor(T/ONE)), state = [x0, x1, y0, y1(, T mod ONE)] when every partial sum fits (update4_exact, update5_exact); release: only the total must fit (update45_release_exact); checked: whenever it returns it is exact (update45_checked_exact_of_ok); remainder stays in [0, ONE) (update5_remainder_range, run5_remainder_range)",
         "configuration unchanged (it is an argument of the model, not part of the result)",
         "IDENTITY returns x0, HOLD returns y1, proportional(k) returns clamp(floor(k*x0/ONE)) (identity_returns_x0, hold_returns_y1, proportional_exact, proportional_exact_of_representable)",
-        "DF2T exact-arithmetic recurrence over any CommRing: clamped recurrence from the third sample on; equals DF1 from rest (df2t_third_output, df2t_run_recurrence, df2t_run_of_df1, df2t_eq_df1_from_rest, df2t_eq_df1_from_rest_zero_offset)",
+        "DF2T exact-arithmetic recurrence over any CommRing: clamped recurrence from the third sample on; equals DF1 from rest, 'rest' for DF2T being the state (u, u) ((0, 0) for zero offset: the _zero_offset variant) (df2t_third_output, df2t_run_recurrence, df2t_run_of_df1, df2t_eq_df1_from_rest, df2t_eq_df1_from_rest_zero_offset)",
         "NEGATION: a partial sum can overflow although the total fits, checked build only (update4_partial_sum_overflow_witness, update4_exact_checked_full_false): known finding F-C03",
-        "FLOAT SAMPLE TYPES (Props/C03F.lean), the f32/f64 model fbiquadUpdate4/5/2 instantiated over the reals with the standard rounding model FlModel u (u = 2^-24 / 2^-53): the rounded summing junction is within g5|b0 x0| + g5|b1 x1| + g4|b2 x2| + g3|a1 y1| + g2|a2 y2| of the exact sum, gk = (1+u)^k - 1 (fbiquad_sum_error, fbiquad_sum_error_uniform, tightness fbiquad_sum_error_tight); the clamped output of N = 4, 5 is within df1Bound of clamp(exact) and the clamp never enlarges the error (fbiquad45_output_error, fbiquad45_vs_df1Step, clip_error_does_not_grow); N = 2: step, first two and third-output bounds against the exact DF1 recurrence (fbiquad2_step_error, fbiquad2_step_vs_exact, fbiquad2_first_two_outputs_error, fbiquad2_third_output_error, fbiquad2_run_recurrence_error, fbiquad4_run_recurrence_error); with gradual underflow (FlModelU: additional absolute term eta per product) (fbiquad45_output_error_underflow, fbiquad2_third_output_error_underflow); DF2T vs DF1 from rest over whole runs of a stable filter: |y2 N - y1 N| <= G (B1 + B2) with G the l1 norm of the impulse response of the recursive part (fbiquad_df1_df2t_sequences_close, fbiquad_seqOut_eq_run, fbiquad_exact_instance_df2t_eq_df1); IDENTITY / HOLD / proportional return exactly x0 / y1 / k x0 under the IEEE exactness law FlModelX (fidentity_returns_x0, fhold_returns_y1, fproportional_returns, fspecial_df2t)",
+        "FLOAT SAMPLE TYPES (Props/C03F.lean), the f32/f64 model fbiquadUpdate4/5/2 instantiated over the reals with the standard rounding model FlModel u (u = 2^-24 / 2^-53): the rounded summing junction is within g5|b0 x0| + g5|b1 x1| + g4|b2 x2| + g3|a1 y1| + g2|a2 y2| of the exact sum, gk = (1+u)^k - 1 (fbiquad_sum_error, fbiquad_sum_error_uniform, tightness fbiquad_sum_error_tight); the clamped output of N = 4, 5 is within df1Bound of clamp(exact) and the clamp never enlarges the error (fbiquad45_output_error, fbiquad45_vs_df1Step, clip_error_does_not_grow); N = 2: step, first two and third-output bounds against the exact DF1 recurrence (fbiquad2_step_error, fbiquad2_step_vs_exact, fbiquad2_first_two_outputs_error, fbiquad2_third_output_error, fbiquad2_run_recurrence_error, fbiquad4_run_recurrence_error); with gradual underflow (FlModelU: additional absolute term eta per product) (fbiquad45_output_error_underflow, fbiquad2_third_output_error_underflow); DF2T (from (u, u)) vs DF1 from rest over whole runs of a stable filter WHILE NEITHER OUTPUT TOUCHES A LIMIT: |y2 N - y1 N| <= G (B1 + B2) with G the l1 norm of the impulse response of the recursive part (fbiquad_df1_df2t_sequences_close, fbiquad_seqOut_eq_run, fbiquad_exact_instance_df2t_eq_df1); IDENTITY / HOLD / proportional return exactly x0 / y1 / fl(k x0) (the rounded product) under the IEEE exactness law FlModelX, for zero offset, representable samples and a result inside the limits (fidentity_returns_x0, fhold_returns_y1, fproportional_returns, fspecial_df2t)",
     ],
     "clauses_explored": [
         "f32/f64 against the real IEEE arithmetic: the same expression to floating-point rounding; DF2T reproduces DF1 from rest for stable filters (native, tolerance scaled by filter gain; the theorems above are about the standard rounding model, the bit-exact tie to Lean's Float32/Float is the fbiquad correspondence)",
@@ -177,7 +177,7 @@ PROPS["C04"] = {
         "N = 4: state after two equal outputs under constant input is (x, x, lim, lim), independent of L; continuations identical (state4_after_two, no_windup4, no_windup4_recovery); N = 2 likewise (state2_after_two, no_windup2)",
         "N = 5: the four stored samples agree; continuation agrees given equal remainder (no_windup5_partial, no_windup5_recovery_partial)",
         "NEGATION: N = 5 response after saturation depends on L through the carried remainder (no_windup5_full_false): known finding F-C04",
-        "FLOAT sample types (Props/C04F.lean, over an abstract carrier with uninterpreted + - *, needing only three maxNum/minNum facts, so rounding, infinities and NaN samples are covered): every output of N = 4, 5, 2 and of every run within non-NaN limits mn <= mx (fclip_in_limits, fbiquad_in_limits, fbiquad_run_in_limits); no wind-up for N = 4 and N = 2 (fbiquad4_no_windup, fbiquad2_no_windup)",
+        "FLOAT sample types (Props/C04F.lean, over an abstract carrier with uninterpreted + - *, needing only three maxNum/minNum facts, so rounding, infinities and NaN samples are covered): every single output of N = 4, 5, 2 within non-NaN limits mn <= mx (fclip_in_limits, fbiquad_in_limits) and every output of every N = 4 run (fbiquad_run_in_limits); no wind-up for N = 4 (fbiquad4_no_windup) and the one-step form for N = 2 (fbiquad2_no_windup: equal second state word and equal output give the same next state; weaker than the integer run-level no_windup2)",
     ],
     "clauses_explored": [
         "that Rust's f32/f64 max/min satisfy the three clamp laws (IEEE maxNum/minNum; tied bit-exactly through the fbiquad correspondence incl. NaN/infinite samples) and bit-identical recovery on the implementation (native)",
@@ -195,7 +195,7 @@ PROPS["C02"] = {
     "clauses_proved": [
         "divi quotient in [0, 2^16] for all 0 <= y <= x < 2^31 (divi_quotient_bound) [after the fix: commit]",
         "atani never overflows on the complete quotient table (65537 points, decide +kernel), 5215 <= r <= 2^29+2599, monotone (atani_range, atani_mono)",
-        "atan2 total for all i32 pairs, release = checked (atan2_total, atan2_never_panics, atan2_release_eq_checked); atan2(0,0) = 0; MIN operands saturate (atan2_min_saturates)",
+        "atan2 total for all i32 pairs, release = checked (atan2_total, atan2_never_panics, atan2_release_eq_checked); atan2(0,0) = 0; y = i32::MIN saturates (atan2_min_saturates; x = MIN is covered by totality and the accuracy theorem)",
         "quadrant: r < 0 <-> y < 0 and -2^30 <= r < 2^30 <-> 0 <= x (atan2_sign, atan2_half_plane, atan2_quadrant, atan2_axes)",
         "reflections about x axis / y axis / diagonal are exact complements off the mirror line (atan2_reflect_x_axis, atan2_reflect_y_axis, atan2_reflect_diagonal)",
         "NEGATION on the mirror line: atan2(0, x) = 5215 for x >= 2, atan2(2,2) = 2^29+2599 (atan2_axis_offset, atan2_reflect_*_full_false): known finding F-C02-b",
@@ -210,7 +210,7 @@ PROPS["C06"] = {
     "families": ["pll"],
     "n_quick": 200000, "n_thorough": 2000000,
     "clauses_proved": [
-        "never panics: total model, the only plain product fits i64 (pll_total, pll_mul_fits)",
+        "never panics: the model of PLL::update is a total function (explicitly wrapping code; pll_total), and the only plain product of the Rust code fits i64 for all i32 operands (pll_mul_fits, a fact about abstract i32 e, k)",
         "gap: update(None) changes nothing but advances y0, x by f0 and y by f, for one and n gaps (pll_gap, pll_gap_iter)",
         "frequency loop decoupled from phase; monotone descent (pll_freq_decoupled, pll_freq_descent)",
         "Locked set: phase error in [0, 2^31/k+1], next frequency error <= 1, invariant under further updates (pll_locked_bounds, pll_locked_invariant)",
@@ -264,11 +264,11 @@ PROPS["C07"] = {
     "clauses_proved": [
         "returned pair = (phase(), frequency()) of the new state, both profiles (rpll_returns_getters)",
         "missing sample advances only the phase by f (rpll_none_advances, rpll_none_advances_release, rpll_none_contract)",
-        "EXACT no-panic contract of update(Some x): dt2 <= 30, dt2 < sf <= 32, dt2 <= sp < dt2+32, non-negative timestamp step (rpll_total_under_contract, rpll_checked_ok_iff, rpll_negative_dx_panics)",
-        "frequency-loop closed form and dead band: ff' = ff iff 2^(32+dt2) - 2^(sf-1) <= ff*dx < 2^(32+dt2) + 2^(sf-1) (rpll_ff_update, rpll_dead_band, rpll_dead_band_iff)",
+        "EXACT no-panic contract of update(Some x) from an in-range state: dt2 <= 30, dt2 < sf <= 32, dt2 <= sp < dt2+32 and the u64 product condition ff*(dx as u64) + 2^(sf-1) < 2^64 (rpll_checked_ok_iff); a non-negative timestamp step is sufficient (rpll_total_under_contract) and, when ff >= 2, necessary (rpll_negative_dx_panics)",
+        "frequency-loop closed form and dead band (in-range state, contract, rounded quotient below 2^32): ff' = ff iff 2^(32+dt2) - 2^(sf-1) <= ff*dx < 2^(32+dt2) + 2^(sf-1) (rpll_ff_update, rpll_dead_band, rpll_dead_band_iff)",
         "NEGATION of the lock clause: dead-band orbit with 0.0162 turns phase error for ever (rpll_lock_phase_false_witness: F-C07-a); admissible configuration that never locks (rpll_never_locks_B, rpll_lock_full_false: F-C07-b)",
-        "POSITIVE lock theorems (Props/C07lock.lean): on the whole admissible region the frequency loop is an autonomous recursion that never wraps and converges geometrically into its dead band within 2^(sf-dt2+5) updates: relative error of ff <= 2^(sf-dt2-33) + 2^-20 (rpll_ff_converges, rpll_ff_geometric); on the sub-region 3*2^dt2 < P <= 2^sp the coupled phase loop contracts globally and from update 2^(sf-dt2+5) + b on, for ever, every offset, both profiles, frequency and phase errors are within explicit envelopes envF, envP (rpll_locks_within_envelope); where those envelopes are below 1e-5 / 1e-3 the property's lock clause holds literally (rpll_lock_holds_where_envelope_small; example dt2 = 8, sf = 16, sp = 15, P = 4000, every offset: rpll_lock_example)",
-        "LOCK CLAUSE LITERALLY, ON A REGION (Props/C07region.lean): for every configuration in rpllRegion (a kernel-checked table of 224 (dt2, shift_frequency, shift_phase) triples, each with a period interval [Plo, Phi]; exactly the triples with sp - d >= 3 and sf - d <= 14) and every timestamp offset, both profiles: no panic, and after 2^(sf-dt2+5) + 2^(sp-dt2+5) updates and for ever the frequency is within relative 1e-5 and the phase within 1e-3 turns (rpll_lock_region); closed-form sub-region: d in 2..11, sp in {sf-1, sf}, sp - d >= 4, sf - d <= 14, max(8 or 12 times 2^d, 2^(sf+sp-d-19)) <= P <= 5/6 2^sp (sf - d <= 11) or 2^sp / 9 (rpllRegionClosed_sub, rpll_lock_region_closed). Proof: worst-case evaluation of the four envelope inequalities over a P interval (monotonicity of Qm, Lim, Nb, envF, envP in P), adaptive bisection with a soundness proof, one decide +kernel over about 8400 leaves. Coverage of the property's admissible region (uniform over the 470 triples, logarithmic in P): table 17.8%, closed form 12.9%; outside: sf - d >= 15 (frequency envelope above 1e-5 / dead-band offset above 1e-3: the finding classes), P <= 3*2^d and P > 2^sp (outside Good). None of the crate's seven test configurations lies inside the region (proved by decide)",
+        "POSITIVE lock theorems (Props/C07lock.lean), all for runs from RPLL::new(dt2) with update k at counter time k*2^dt2 starting at 0 and the reference edges at any offset: on the whole admissible region the frequency loop is an autonomous recursion that never wraps and converges geometrically into its dead band within 2^(sf-dt2+5) updates: relative error of ff <= 2^(sf-dt2-33) + 2^-20 (rpll_ff_converges, rpll_ff_geometric); on the sub-region 3*2^dt2 < P <= 2^sp the coupled phase loop contracts globally and from update 2^(sf-dt2+5) + b on, for ever, every offset, both profiles, frequency and phase errors are within explicit envelopes envF, envP (rpll_locks_within_envelope); where those envelopes are below 1e-5 / 1e-3 the property's lock clause holds literally (rpll_lock_holds_where_envelope_small; example dt2 = 8, sf = 16, sp = 15, P = 4000, every offset: rpll_lock_example)",
+        "LOCK CLAUSE LITERALLY, ON A REGION (Props/C07region.lean): for every configuration in rpllRegion (a kernel-checked table of 224 (dt2, shift_frequency, shift_phase) triples, each with a period interval [Plo, Phi]; exactly the triples with sp - d >= 3 and sf - d <= 14) and every reference offset, run from RPLL::new(dt2) as above, both profiles: no panic, and after 2^(sf-dt2+5) + 2^(sp-dt2+5) updates and for ever the frequency is within relative 1e-5 and the phase within 1e-3 turns (rpll_lock_region); closed-form sub-region: d in 2..11, sp in {sf-1, sf}, sp - d >= 4, sf - d <= 14, max(8 or 12 times 2^d, 2^(sf+sp-d-19)) <= P <= 5/6 2^sp (sf - d <= 11) or 2^sp / 9 (rpllRegionClosed_sub, rpll_lock_region_closed). Proof: worst-case evaluation of the four envelope inequalities over a P interval (monotonicity of Qm, Lim, Nb, envF, envP in P), adaptive bisection with a soundness proof, one decide +kernel over about 8400 leaves. Coverage of the property's admissible region (uniform over the 470 triples, logarithmic in P): table 17.8%, closed form 12.9%; outside: sf - d >= 15 (frequency envelope above 1e-5 / dead-band offset above 1e-3: the finding classes), P <= 3*2^d and P > 2^sp (outside Good). None of the crate's seven test configurations lies inside the region (proved by decide)",
     ],
     "clauses_explored": [
         "lock within 2^(sf-dt2+5)+2^(sp-dt2+5) updates to 1e-5 / 1e-3 turns over the admissible region (native sweep, timestamps crossing the i32 boundary); misses are accepted only inside the two listed finding classes with their quantitative envelopes",
@@ -283,10 +283,10 @@ PROPS["C08"] = {
     "families": ["pid", "repr"],
     "n_quick": 60000, "n_thorough": 600000,
     "clauses_proved": [
-        "over any field: the built coefficients realise (g0+g1 D+g2 D^2)/(l0+l1 D+l2 D^2), D = 1 - z^-1, at every (complex) frequency, with g_i the period-scaled gains and l_i = g_i/limit_i, l = 1 for P (pid_transfer, pid_transfer_ratio, pid_transfer_complex, pid_transfer_signs, pid_gains_order_P/I/I2, pid_lsum_ge_one)",
+        "over any field: the built coefficients realise (g0+g1 D+g2 D^2)/(l0+l1 D+l2 D^2), D = 1 - z^-1, at every (complex) frequency, with g_i the period-scaled gains and l_i = g_i/limit_i, l = 1 for P, whenever l0+l1+l2 != 0 - which pid_transfer_signs derives from matching signs and period > 0 (pid_transfer, pid_transfer_ratio, pid_transfer_complex, pid_transfer_signs, pid_gains_order_P/I/I2, pid_lsum_ge_one)",
         "no limits: feedback coefficients are exactly the integrator kernel for ANY coefficient type and quantiser with quantize 0 = 0, quantize 1 = ONE; -2*ONE representable (pid_exact_kernel, pid_exact_kernel_int)",
         "order P with a lone proportional gain builds exactly [quantize g, 0, 0, 0, 0] (pid_order_p_lone_gain)",
-        "FLOAT EVALUATION (Props/C08F.lean), the builder model over the reals with rounded + - x / (structure FlModelD u, the standard model with a division law; relative-error calculus fpidRel closed under products, quotients and sums of non-negative terms): every period-scaled gain and normalised limit carries at most 6 roundings (fpid_gl_error, exact slots fpid_gl_exact_slots), the normalisation 1/(l0+l1+l2) at most 10, every value handed to quantize at most 17 (fpid_gain_error), hence float coefficients are within g21 times the sum of the magnitudes of their terms of the exact rational coefficients of Props/C08.lean (fpid_float_coeff_error) and each fixed-point quantised gain is within g17 |exact| 2^q + 1 LSB of quantizeR of the exact value (fpid_fixed_gain_error, fpid_quantizeR_lipschitz); numbers: g17 <= 18 u, g21 <= 22 u for u = 2^-24, 2^-53 (fpid_gamma_numbers). The exact integrator kernel without limits holds for every coefficient type under the IEEE exactness law (operations with representable exact results are exact: fpid_exact_kernel_rounded) and is FALSE under the bare standard model (fpid_exact_kernel_needs_exactness: a model that rounds 0+1 gives a1 = -4/9) - so that clause genuinely depends on IEEE exactness, which the correspondence (exact equality of a1, a2 for the integer types when no limit is set) checks on the real arithmetic",
+        "FLOAT EVALUATION (Props/C08F.lean), the builder model over the reals with rounded + - x / (structure FlModelD u, the standard model with a division law; relative-error calculus fpidRel closed under products, quotients and sums of non-negative terms): every period-scaled gain and normalised limit carries at most 6 roundings (fpid_gl_error gives order+5 = 7 for the l0 slot in general; 6 after the exact slots of fpid_gl_exact_slots are taken out), the normalisation 1/(l0+l1+l2) at most 10, every value handed to quantize at most 17 (fpid_gain_error), hence float coefficients are within g21 times the sum of the magnitudes of their terms of the exact rational coefficients of Props/C08.lean (fpid_float_coeff_error) and each fixed-point quantised gain is within g17 |exact| 2^q + 1 LSB of quantizeR of the exact value (fpid_fixed_gain_error, fpid_quantizeR_lipschitz); numbers: g17 <= 18 u, g21 <= 22 u for u = 2^-24, 2^-53 (fpid_gamma_numbers). The exact integrator kernel without limits holds for every coefficient type under the IEEE exactness law (operations with representable exact results are exact: fpid_exact_kernel_rounded) and is FALSE under the bare standard model (fpid_exact_kernel_needs_exactness: a model that rounds 0+1 gives a1 = -4/9) - so that clause genuinely depends on IEEE exactness, which the correspondence (exact equality of a1, a2 for the integer types when no limit is set) checks on the real arithmetic",
     ],
     "clauses_explored": [
         "the real IEEE arithmetic and powi (the rounding theorems of C08F are about the standard model with the model's 1/((1*p)*p) for powi); Pid::build's copysign / NaN-to-infinity glue (modelled in the driver, tied by correspondence)",
@@ -302,7 +302,7 @@ PROPS["C09"] = {
         "over the reals, for all nine builders: DC / Nyquist / f0 response identities, allpass |H| = |gain| at every frequency, I/HO pole exactly at z = 1 (lowpass_response ... iho_response, polyZi_on_circle)",
         "stability: Jury conditions for the eight stable types and 'Jury implies both complex roots inside the unit disc' (build_jury, build_poles_in_disc, jury_roots_in_disc', iho_poles')",
         "gain is a pure output scale for every builder and every shape incl. Slope (build_gain_scale, build_gain_neg) [after the fix: commit; the original formula is refuted: slope_original_poles_move, slope_original_radicand_neg]",
-        "Biquad::from(&ba): divides by a0, exact invariance under common scaling, nearest representable value, 1 LSB stability (biquadFromBa_div, biquadFromBa_scale, quantize_nearest, quantize_close)",
+        "Biquad::from(&ba): divides by a0 and is exactly invariant under common scaling for an ABSTRACT quantiser (biquadFromBa_div, biquadFromBa_scale); the rounding itself, stated on the helper quantizeQ Q v = roundHalfAway(v 2^Q) (no saturation; saturation and the link to the float pipeline are Props/C05q.lean): nearest integer, 1 LSB stability (quantize_nearest, quantize_close)",
         "validity of the shape parameter: Q > 0, bandwidth > 0 always; slope iff s(sqrt(shelf)-1)^2 < shelf+1 (valid_q, valid_bandwidth, valid_slope_iff, valid_slope_partial); NEGATION for steep slopes (valid_slope_full_false: F-C09-b)",
     ],
     "clauses_explored": [
@@ -320,7 +320,7 @@ PROPS["C11"] = {
         "update(sample, phase) = update_iq(sample, from_angle(phase)) for every state, sample, phase, configuration, both profiles (lockin_update_eq_bind, lockin_update_eq_update_iq, lockin_update_of_cossin, lockin_step)",
         "mixer: floor(sample*lo/2^31) componentwise, never overflows, exact for LO values from cossin (cmul_scaled_i32_never_panics, cmul_scaled_i32_exact, lockin_mixer_exact); i16 and complex variants with their exact panic conditions (cmul_scaled_i16_never_panics, cmul_scaled_c_panics_iff, cmul_scaled_c_value)",
         "abs_sqr / log2 panic iff both components are i32::MIN; saturating add/sub in range (abs_sqr_panics_iff, log2_panics_iff, abs_sqr_value, log2_value, csat_add_sub_range)",
-        "RECOVERY (Props/C11rec.lean), every documented Butterworth pair with 2^20 <= k <= 2^25, every 0 <= A <= 2^30, every theta, start phase and reference frequency word in 0.05..0.45, samples within 1 of A cos(phi_n + theta), mean over any window of >= 4096 outputs after 40*2^32/k samples, both profiles: the run never panics; mixer = R(cos theta + cos(2 phi + theta), -sin theta + sin(2 phi + theta)) up to 9.1e-6 A + 2 (lockin_recovery_mixer); both mean components within 1.9e-5 A + 2.2*2^32/k + 6 of R(cos theta, -sin theta), R = A*A0/2^32 (lockin_recovery_window_sum, lockin_recovery_components); magnitude and angle error bounds in general (lockin_recovery_magnitude_general, lockin_recovery_angle_general: |delta| <= 5.4e-5 + 6.3*2^32/(k A) + 17/A); relative magnitude within 1e-3 whenever k A >= 2^45 and angle within 2e-4 rad whenever k A >= 3*2^46 (lockin_recovery_magnitude_partial, lockin_recovery_angle_partial)",
+        "RECOVERY (Props/C11rec.lean), every documented Butterworth pair with 2^20 <= k <= 2^25, every 0 <= A <= 2^30, every theta, start phase and reference frequency word in 0.05..0.45, Lockin started from the zero state, samples within 1 of A cos(phi_n + theta), mean over any window of >= 4096 outputs after 40*2^32/k samples, both profiles: the run never panics; mixer = R(cos theta + cos(2 phi + theta), -sin theta + sin(2 phi + theta)) up to 9.1e-6 A + 2 (lockin_recovery_mixer); both mean components within 1.9e-5 A + 2.2*2^32/k + 6 of R(cos theta, -sin theta), R = A*A0/2^32 (lockin_recovery_window_sum, lockin_recovery_components); magnitude and angle error bounds in general (lockin_recovery_magnitude_general, lockin_recovery_angle_general: |delta| <= 5.4e-5 + 6.3*2^32/(k A) + 17.1/A); relative magnitude within 1e-3 whenever k A >= 2^45 and angle within 2e-4 rad whenever k A >= 3*2^46 (lockin_recovery_magnitude_partial, lockin_recovery_angle_partial)",
         "NEGATION of the recovery clause as stated: k = 2^20, A = 2^23, theta = pi/4, F = 2^30: angle error > 9.7e-4 rad, kernel-evaluated 167936-update run (lockin_recovery_angle_witness, lockin_recovery_full_false): known finding F-C11",
     ],
     "clauses_explored": [
@@ -337,7 +337,7 @@ PROPS["C19"] = {
         "from_angle, arg, abs_sqr, log2 never panic on unit vectors, release = checked (polar_total)",
         "log2 = -2 and 2^31(1 - 5e-5) <= abs_sqr < 2^31 for EVERY phase (polar_log2, polar_abs_sqr; 128-row kernel table + exact norm identity)",
         "the unit vector is never on an axis or diagonal, so C02's reflection theorems apply (polar_off_mirror_lines)",
-        "round-trip error is reproduced exactly under quarter turn / half turn, negated under conjugation and quadrant mirror, constant over 128-phase blocks; hence the bound for all 2^32 phases follows from 2^22 first-octant fields (polar_roundtrip_quarter_turn, _half_turn, _conj, _mirror, _low7, polar_roundtrip_reduction, polar_roundtrip_full_of_fields)",
+        "round-trip error is reproduced exactly under quarter turn / half turn, negated under conjugation and quadrant mirror; the returned ANGLE is constant over 128-phase blocks (so the error varies by at most 127 LSB inside a block, which the reduction absorbs); hence the bound for all 2^32 phases follows from 2^22 first-octant fields (polar_roundtrip_quarter_turn, _half_turn, _conj, _mirror, _low7, polar_roundtrip_reduction, polar_roundtrip_full_of_fields)",
         "ROUND TRIP: |wrapI 32 (arg(from_angle p) - p)| <= 15038 LSB for all 2^32 phases (polar_roundtrip, polar_roundtrip_full_holds): complete kernel evaluation of the 2^22 first-octant fields (32 generated chunk files, decide +kernel, about 38 CPU-minutes cold) lifted by the symmetry reduction",
     ],
     "clauses_explored": [],
@@ -351,12 +351,12 @@ PROPS["C20"] = {
                  "cossin", "atan2", "complex", "lockin", "rpll", "sweep", "hbf", "fbiquad", "coeff", "pid", "glue", "repr"],
     "n_quick": 20000, "n_thorough": 200000,
     "clauses_proved": [
-        "per entry point: the checked model returns ok on the documented domain (c20_cossin, c20_atan2, c20_polar, c20_abs_sqr_log2, c20_cmul, c20_cmul_complex, c20_pll, c20_rpll, c20_lowpass1, c20_saturating_scale, c20_dsm, c20_cic_interpolate, c20_macc, c20_mul_div, c20_sweep_next); CIC decimator, Unwrapper, Accu, overflowing_sub, PLL are total functions of the model (explicitly wrapping code)",
+        "per entry point: the checked model returns ok on the documented domain (c20_dsm: K <= 7 from the default state; c20_cic_interpolate: any error of a contract-driven run is one of the two arithmetic overflow sites, never an index / assertion panic) (c20_cossin, c20_atan2, c20_polar, c20_abs_sqr_log2, c20_cmul, c20_cmul_complex, c20_pll, c20_rpll, c20_lowpass1, c20_saturating_scale, c20_dsm, c20_cic_interpolate, c20_macc, c20_mul_div, c20_sweep_next); CIC decimator, Unwrapper, Accu, overflowing_sub, PLL are total functions of the model (explicitly wrapping code)",
         "half-band filters: every slice expression in range for admissible blocks (C14: hbfdec_output_length_in_range, hbfint_output_length_in_range, cascades)",
         "NEGATIONS (known findings): Lowpass<2> full scale (c20_neg_lowpass2), Dsm<8> (c20_neg_dsm8), Biquad partial sum (c20_neg_biquad_partial_sum)",
         "REMAINING ENTRY POINTS (Props/C20b.lean, 28 corollaries of theorems in the other property files, uniform shape 'inside the documented domain the checked model returns .ok'): overflowing_sub / Unwrapper::update / Accu::next (total by type + range facts), Cic::decimate for any order, rate, width, input (c20b_cic_decimate), Cic::gain where R^N is representable, Cic::interpolate where the exact recursion fits; Lowpass<2>: any input sequence within +-2^29 from a settled state or after set(), every step between levels within +-2^30 (c20b_lowpass2_*), and the unconditional clause 'any sample' proved FALSE (c20b_lowpass2_any_sample_full_false: F-C10); Lockin: one step reduces to the two Lowpass<2> updates, tone runs with A <= 2^30 never panic (c20b_lockin_step, c20b_lockin_run); Dsm K = 0 (after the fix), K <= 7 from every invariant state, 1 <= K <= 8 returns iff no exact MASH output equals +128 (c20b_dsm_*); half-band stages and cascades: for admissible block lists every slice bound of the Rust code holds and the output counts match the debug assertions (c20b_hbf*); fixed-point Biquad update::<4/5>: checked .ok when every partial sum fits, release always; quantize and Biquad::from saturate into range; complex from_angle / arg / saturating add, sub. The file ends with the explicit list of entry points that had NO no-panic theorem; most of them are closed by Props/C20c.lean (next item); still without one: Lowpass<2> beyond the proved domains, Lockin for non-tone inputs, Repeat/Cascade over Lowpass<2>, Sweep::fit and the float helpers, PidBuilder::build on floats, svf - covered by the checked-profile correspondence and the native oracle only",
-        "GAPS CLOSED (Props/C20c.lean, 42 theorems): the Filter combinators never panic for any i32 sample, any gain 1 <= k <= 2^31-1 and any in-range state - Nyquist, Repeat<N, Lowpass<1>> for EVERY N, Cascade<Lowpass<1>, Nyquist>, AccuOsc over Sweep (c20c_nyquist, c20c_repeat_lowpass1, c20c_cascade_lowpass1_nyquist, c20c_accu_osc); EXACT no-panic conditions (iff) generic in (w, q) for forward_gain (both partial sums of b0+b1+b2 fit), input_offset (additionally the sum is non-zero; a zero DC numerator divides by zero in BOTH profiles), set_input_offset (c20c_forward_gain_iff, c20c_input_offset_iff, c20c_set_input_offset_iff, with values and proved panic witnesses); fixed-point update::<2> (DF2T): checked .ok iff the five narrow sums fit (Df2tFit), release always, new state in range (c20c_biquad_update2_iff, c20c_biquad_update2_release, panic / wrong-sign witness c20c_biquad_update2_panic_witness); settle_interpolate .ok iff rate+1, (rate+1)^N and x (rate+1)^N are representable (c20c_cic_settle_iff); CIC from ARBITRARY in-range states: decimate keeps the state in range, one interpolate step .ok iff the comb and integrator sums fit (c20c_cic_decimate_any_state, c20c_cic_interpolate_some_iff, c20c_cic_interpolate_none_iff). Observations recorded there (outside C20's enumerated entry points, no documented domain excludes them): forward_gain() overflows when b0+b1+b2 >= 2.0; input_offset() divides by zero for every filter with zero DC numerator (e.g. every high-pass); fixed-point DF2T has no wide accumulator (documented by the crate as 'do not use')",
-        "NON-VACUITY AUDIT (Props/NonVacuity.lean + NonVacuityA..D, built and audited with this property because C20 is the union of the others): 220 further examples instantiating the hypotheses of every property theorem of all 36 Props files that was not already followed by an instance in its own file, with documented, reachable, non-degenerate witnesses (Lowpass k = 2^24 and a settled non-set() state, RPLL 8/4000/16/15 and the reachable dead-band state across an i32 wrap, CIC N = 3 rate 7, Dsm K = 3 after the doc-test input and the K = 8 boundary state, a Q2.30 Butterworth low-pass, the depth-4 half-band cascades, a genuinely rounding FlModelX ...); every theorem is accounted for by a witness or by a per-file comment (no hypotheses / independent range facts / instance at a quoted line). No theorem was found vacuous; recorded limits: the RPLL lock regions exclude all six configurations of the crate's own tests (proved), sat_scale_clip has no positive-saturation case at shift 32, the dB form of the stop-band theorem needs response != 0 (the linear form does not), the float theorems assume the standard rounding model",
+        "GAPS CLOSED (Props/C20c.lean, 23 property theorems + 19 in its Lemmas/C20c*.lean files): the Filter combinators never panic for any i32 sample, any gain 1 <= k <= 2^31-1 and any in-range state - Nyquist, Repeat<N, Lowpass<1>> for EVERY N, Cascade<Lowpass<1>, Nyquist>, AccuOsc over Sweep (c20c_nyquist, c20c_repeat_lowpass1, c20c_cascade_lowpass1_nyquist, c20c_accu_osc); EXACT no-panic conditions (iff) generic in (w, q) for forward_gain (both partial sums of b0+b1+b2 fit), input_offset (additionally the sum is non-zero; a zero DC numerator divides by zero in BOTH profiles), set_input_offset (c20c_forward_gain_iff, c20c_input_offset_iff, c20c_set_input_offset_iff, with values and proved panic witnesses); fixed-point update::<2> (DF2T): checked .ok iff the five narrow sums fit (Df2tFit), release always, new state in range (c20c_biquad_update2_iff, c20c_biquad_update2_release, panic / wrong-sign witness c20c_biquad_update2_panic_witness); settle_interpolate .ok iff rate+1, (rate+1)^N and x (rate+1)^N are representable (c20c_cic_settle_iff); CIC from ARBITRARY in-range states: decimate keeps the state in range, one interpolate step .ok iff the comb and integrator sums fit (c20c_cic_decimate_any_state, c20c_cic_interpolate_some_iff, c20c_cic_interpolate_none_iff). Observations recorded there (outside C20's enumerated entry points, no documented domain excludes them): forward_gain() overflows when b0+b1+b2 >= 2.0; input_offset() divides by zero for every filter with zero DC numerator (e.g. every high-pass); fixed-point DF2T has no wide accumulator (documented by the crate as 'do not use')",
+        "NON-VACUITY AUDIT (Props/NonVacuity.lean + NonVacuityA..D, built and audited with this property because C20 is the union of the others): 220 further examples instantiating the hypotheses of every property theorem of all 36 Props files that was not already followed by an instance in its own file, with documented, reachable, non-degenerate witnesses (Lowpass k = 2^24 and a settled non-set() state, RPLL 8/4000/16/15 and the reachable dead-band state across an i32 wrap, CIC N = 3 rate 7, Dsm K = 3 after the doc-test input and the K = 8 boundary state, a Q2.30 Butterworth low-pass, the depth-4 half-band cascades, a genuinely rounding FlModelX ...); every theorem is accounted for by a witness or by a per-file comment (no hypotheses / independent range facts / instance at a quoted line). No theorem was found vacuous; recorded limits: the RPLL lock regions exclude all seven configurations of the crate's own tests (proved), sat_scale_clip has no positive-saturation case at shift 32, the dB form of the stop-band theorem needs response != 0 (the linear form does not), the float theorems assume the standard rounding model",
     ],
     "clauses_explored": [
         "panics that originate in Rust mechanics rather than arithmetic (slice indexing inside iterator adaptors, copy_within, unimplemented!() arms, float helpers of Sweep, coefficient builders in f64): checked-profile correspondence on every op family (PANIC lines must agree with the model) and the union of all native oracles plus sweeps of Sweep::next / Sweep::fit / AccuOsc / complex helpers / Nyquist",
